@@ -30,7 +30,7 @@ CLAIM = ("Every operation word new(cfg).call(container(points_N, order), t).dump
          "words {defaults, unknown keyword, non-parameter attribute as keyword, omission of each parameter without default}, is executed on "
          "every public solver class found by introspection (a class missing from the per-class table is a harness fault); on every word the "
          "documented contract is evaluated: ExactSolution of exactly N records, first field(s) bit-identical to the inputs in the order given "
-         "and named as the standard table prescribes, remaining fields carrying the documented names, container equivalence, caller's data "
+         "and named as the standard table prescribes, remaining fields carrying the documented names, container equivalence (including whole-number positions given as Python ints and as an integer ndarray, which must give the float request's records), caller's data "
          "unchanged, record order covariant with the input order, exact CSV round trip, ValueError for unknown / missing parameters. "
          "Model checking over the operation alphabet is the right level because the contract is a property of call histories of fixed shape "
          "whose failure modes (field order, layout, aliasing, container handling) are input-shape dependent, not value dependent.")
